@@ -307,6 +307,41 @@ def r5(ctx, prog):
     ctx.floor(R, 3)
 
 
+def r6(ctx, prog):
+    R = ctx.rule("C11.R6", "memid provenance: the memid recorded in an object (what its release will be told) is, on every path, the one written by the allocation call that "
+                           "produced the object — a recorded `none` memid makes the later free a no-op and the region is never returned")
+    n = 0
+    for f in prog.fns.values():
+        for fld in ("memid", "meta_memid"):
+            for a, l, rhs, op in f.field_stores(fld):
+                if op != "=" or rhs is None:
+                    continue
+                m = rl.var_of(f, rhs)
+                if m is None or m in f.pids:
+                    continue      # a parameter: provenance is the caller's (checked at its own store)
+                n += 1
+                cfg = f.cfg
+
+                def writes_m(e):
+                    nn = f.nodes[e]
+                    if nn["k"] != "CallExpr":
+                        return False
+                    for x in nn["args"]:
+                        j = f.strip(x)
+                        if f.nodes[j]["k"] == "UnaryOperator" and f.nodes[j]["op"] == "&" and rl.var_of(f, f.nodes[j]["c"][0]) == m:
+                            return True
+                    return False
+                w = cfg.must_pass([cfg.entry], [cfg.pt(a)], writes_m)
+                # and no plain re-definition of m after the last such call
+                plain = [x for x, r_, o in f.var_defs(m) if o in ("=",)]
+                late = [x for x in plain if any(writes_m(e) and cfg.reaches(cfg.after(e), cfg.pt(x)) for e in f.all(kind="CallExpr")) and cfg.reaches(cfg.after(x), cfg.pt(a))]
+                ctx.check(R, w is None and not late, f.where(a), "%s = %s: every path to the store passes the allocation call that fills `%s`" % (f.text(l), f.text(rhs), f.text(rhs)),
+                          key="C11.R6:%s:%s" % (f.name, fld), witness=w)
+    if n < 4:
+        ctx.broke("C11.R6: %d recorded memids found (5 confirmed: subproc, thread data, arena meta, segment map part, segment)" % n)
+    ctx.floor(R, 4)
+
+
 def run(ctx):
     ctx.explanation = ("Static decision of the code-shaped necessary conditions of C11 on every CFG path of the release chain "
                        "(segment free -> arena free -> OS free -> munmap): writer/reader agreement on memid.mem.os.{base,size}, no dropped "
@@ -316,11 +351,11 @@ def run(ctx):
     for c in configs:
         prog = ctx.prog(c)
         if c == "REL":
-            r1(ctx, prog); r2(ctx, prog); r3(ctx, prog); r4(ctx, prog); r5(ctx, prog)
+            r1(ctx, prog); r2(ctx, prog); r3(ctx, prog); r4(ctx, prog); r5(ctx, prog); r6(ctx, prog)
         else:
             # cross-configuration: the same rules must hold in the hardened and debug programs
             n0 = len(ctx.instances)
-            r1(ctx, prog); r3(ctx, prog); r4(ctx, prog); r5(ctx, prog)
+            r1(ctx, prog); r3(ctx, prog); r4(ctx, prog); r5(ctx, prog); r6(ctx, prog)
             for i in ctx.instances[n0:]:
                 i["site"] += " [%s]" % c
                 if not i["ok"]:
